@@ -1159,6 +1159,13 @@ class FnEmitter:
                 return SV('List.length %s' % paren(x.e), 'usize', x.fv)
             if name == 'is_empty' and not args:
                 return SV('List.isEmpty %s = true' % paren(x.e), 'bool', x.fv)
+            if name == 'to_vec' and not args:
+                return x
+            if name == 'contains' and len(args) == 1 and x.ty[5:] in INT_TYPES:
+                y = self.ev(args[0], env, x.ty[5:])
+                if y.agg or y.ty != x.ty[5:]:
+                    raise TranslateError('contains: element of type %r' % (y.ty,))
+                return SV('List.contains %s %s = true' % (paren(x.e), paren(y.e)), 'bool', x.fv | y.fv)
             if name == 'chain' and len(args) == 1:
                 y = self.ev(args[0], env, x.ty)
                 if y.agg or y.ty != x.ty:
@@ -1248,6 +1255,10 @@ class FnEmitter:
         if name == 'from' and segs[0] in ('Self', self.mod.ftype, 'BaseElement'):
             x = self.ev(args[0], env, None)
             return self.f_new(self.cast(x, self.mod.rawty))
+        if segs == ['Vec', 'new'] and not args:
+            if not (isinstance(want, str) and want.startswith('list:')):
+                raise TranslateError('Vec::new() without a known element type (add a hint)')
+            return SV('([] : %s)' % self.lty(want), want)
         if name == 'from_le_bytes' and len(segs) == 2 and segs[0] in INT_TYPES and is_unsigned(segs[0]) and len(args) == 1:
             x = self.ev(args[0], env, segs[0])
             if x.agg or x.ty != segs[0]:
@@ -1423,6 +1434,17 @@ class FnEmitter:
                 ex = st[1]
                 if ex[0] == 'if':
                     self.ifstmt(ex, env)
+                elif ex[0] == 'method' and ex[2] == 'push' and len(ex[3]) == 1 and ex[1][0] == 'path' \
+                        and len(ex[1][1]) == 1 and ex[1][1][0] in env:
+                    # v.push(x)  ==  v = v ++ [x]
+                    n = ex[1][1][0]
+                    cur = env[n]
+                    if cur.agg or not (isinstance(cur.ty, str) and cur.ty.startswith('list:') and cur.ty[5:] in INT_TYPES):
+                        raise TranslateError('push on a value of type %r' % (cur.ty,))
+                    y = self.ev(ex[3][0], env, cur.ty[5:])
+                    if y.agg or y.ty != cur.ty[5:]:
+                        raise TranslateError('push of a value of type %r' % (y.ty,))
+                    env[n] = self.bind(n, SV('%s ++ [%s]' % (paren(cur.e), y.e), cur.ty, cur.fv | y.fv))
                 else:
                     raise TranslateError('expression statement')
             elif k == 'assert':
@@ -1495,6 +1517,10 @@ class FnEmitter:
                     acc.append(n)
             elif st[0] == 'expr' and st[1][0] == 'if':
                 self.assigned_in_if(st[1], acc)
+            elif st[0] == 'expr' and st[1][0] == 'method' and st[1][2] == 'push' and st[1][1][0] == 'path' \
+                    and len(st[1][1][1]) == 1:
+                if st[1][1][1][0] not in acc:
+                    acc.append(st[1][1][1][0])
             elif st[0] in ('while',):
                 self.assigned_names(st[2], acc)
             elif st[0] == 'for':
